@@ -13,7 +13,7 @@ from ..gfi import distribution
 from ..gfi.common import Obs
 from ..program import AnalysisError
 from ..rules import Arms, is_call, is_mcall, mcalls, mentions
-from ..terms import C, Evaluator, G, P, is_t, mk_cmp, mk_proj, scenarios, show, subterms
+from ..terms import C, Evaluator, G, P, is_t, mk_cmp, mk_elem, mk_proj, scenarios, show, subterms
 
 TFP = "distributions/tensorflow_probability/__init__.py"
 DM = "distributions/distribution.py"
@@ -39,52 +39,94 @@ def run(chk, prog):
     _, fn = prog.func("tfp_distribution", TFP)
     where = f"{m.rel}:{fn.lineno}"
     ev = Evaluator(prog)
-    sampler, logpdf = prog.nested(fn, "sampler"), prog.nested(fn, "logpdf")
-    env0 = {"dist": P("dist")}
-    rs = ev.eval_fn(sampler, m, env0=env0)
-    rl = ev.eval_fn(logpdf, m, env0=env0)
-    ARGS, KW = ("star", P("args")), P("kwargs")
-    d = ("call", P("dist"), (ARGS,), (("**", KW),))
-    oks = is_mcall(rs.ret, "sample") and rs.ret[1][1] == d and dict(rs.ret[3]).get("seed") == P("key")
-    chk.require(oks, "SIBLING-DENSITY", "tfp_distribution.sampler", "dist(*args, **kwargs).sample(seed=key, ...)", derived=show(rs.ret)[:200], expected="dist(*args, **kwargs).sample(seed=key, sample_shape=...)", where=where)
-    okl = rl.ret == ("call", ("attr", d, "log_prob"), (P("v"),), ())
-    chk.require(okl, "SIBLING-DENSITY", "tfp_distribution.logpdf", "log_prob of the distribution built from the same (dist, args, kwargs)", derived=show(rl.ret)[:200], expected="dist(*args, **kwargs).log_prob(v)", where=where)
-    pop = lambda r: [e for e in (r.env.get("__effects__", []) + list(subterms(r.ret))) if is_mcall(e, "pop") and e[1][1] == KW and e[2] and e[2][0] == C("sample_shape")]
-    ssamp = [x for x in subterms(rs.ret) if is_mcall(x, "pop") and x[1][1] == KW and x[2] and x[2][0] == C("sample_shape")]
-    chk.require(len(pop(rl)) >= 1 and len(ssamp) >= 1, "SIBLING-DENSITY", "tfp_distribution/sample_shape", "both drop sample_shape before constructing the distribution",
-                derived=f"sampler pops: {len(ssamp)}; logpdf pops: {len(pop(rl))}", expected="kwargs.pop('sample_shape', ()) in both", where=where)
+    # the pair handed to exact_density, evaluated in the environment they close over (local helpers shared by the two are seen through)
     r = ev.eval_fn(fn, m)
-    oke = is_call(r.ret, "exact_density") and len(r.ret[2]) == 3 and ev.closure_of(r.ret[2][0]) is not None and ev.closure_of(r.ret[2][0]).node is sampler and ev.closure_of(r.ret[2][1]).node is logpdf
+    oke = is_call(r.ret, "exact_density") and len(r.ret[2]) == 3 and ev.closure_of(r.ret[2][0]) is not None and ev.closure_of(r.ret[2][1]) is not None
     chk.require(oke, "SIBLING-DENSITY", "tfp_distribution/pairing", "exact_density(sampler, logpdf, name)", derived=show(r.ret)[:160], expected="sampler first, logpdf second", where=where)
+    if not oke:
+        raise AnalysisError("tfp_distribution does not return exact_density(<sampler>, <logpdf>, name)")
+    cs_, cl_ = ev.closure_of(r.ret[2][0]), ev.closure_of(r.ret[2][1])
+    sampler, logpdf = cs_.node, cl_.node
+    rs = ev.eval_fn(sampler, m, env0=dict(cs_.env))
+    rl = ev.eval_fn(logpdf, m, env0=dict(cl_.env))
+    ARGS, KW = ("star", P("args")), P("kwargs")
+    SS = C("sample_shape")
+
+    def dist_of(t, meth):
+        """the distribution object whose `meth` is called: dist(*args, **K) with K = kwargs without sample_shape"""
+        if not (is_mcall(t, meth) and is_t(t[1][1], "call") and t[1][1][1] == P("dist") and t[1][1][2] == (ARGS,)):
+            return None, None
+        return t[1][1], dict(t[1][1][3]).get("**")
+
+    def drops_shape(K, res):
+        """sample_shape does not reach the constructor: popped from kwargs beforehand, or filtered out of a copy"""
+        if K == KW:
+            return any(is_mcall(e, "pop") and e[1][1] == KW and e[2] and e[2][0] == SS for e in res.env.get("__effects__", []) + list(subterms(res.ret)))
+        if is_t(K, "dictfam") and K[2:] == mk_elem(("items", KW))[1]:
+            it_ = K[1]
+            conds = it_[1] if is_t(it_, "tuple") is False and isinstance(it_, tuple) and len(it_) == 2 and isinstance(it_[1], tuple) and it_[0] in (KW, ("items", KW)) else ()
+            return any(c_ in (mk_cmp("!=", ("elem", KW), SS), ("un", "not", mk_cmp("==", ("elem", KW), SS))) for c_ in conds)
+        return False
+
+    ds_, Ks_ = dist_of(rs.ret, "sample")
+    dl_, Kl_ = dist_of(rl.ret, "log_prob")
+    shp = dict(rs.ret[3]).get("sample_shape") if ds_ is not None else None
+    src_ok = is_call(shp, "unwrap") and len(shp[2]) == 1 and (is_mcall(shp[2][0], "pop") or is_mcall(shp[2][0], "get")) and shp[2][0][1][1] == KW and shp[2][0][2][:1] == (SS,)
+    oks = ds_ is not None and dict(rs.ret[3]).get("seed") == P("key") and src_ok
+    chk.require(oks, "SIBLING-DENSITY", "tfp_distribution.sampler", "dist(*args, **kwargs).sample(seed=key, ...)", derived=show(rs.ret)[:200], expected="dist(*args, **kwargs).sample(seed=key, sample_shape=Const.unwrap(kwargs' sample_shape))", where=where)
+    okl = dl_ is not None and rl.ret[2] == (P("v"),) and not rl.ret[3] and dl_ == ds_
+    chk.require(okl, "SIBLING-DENSITY", "tfp_distribution.logpdf", "log_prob of the distribution built from the same (dist, args, kwargs)", derived=show(rl.ret)[:200], expected="the sampler's distribution object .log_prob(v)", where=where)
+    okd = ds_ is not None and dl_ is not None and drops_shape(Ks_, rs) and drops_shape(Kl_, rl)
+    chk.require(okd, "SIBLING-DENSITY", "tfp_distribution/sample_shape", "both drop sample_shape before constructing the distribution",
+                derived=f"sampler kwargs: {show(Ks_)[:80]}; logpdf kwargs: {show(Kl_)[:80]}", expected="kwargs.pop('sample_shape', ()) in both (or a filtered copy of kwargs)", where=where)
     # ---- exact_density / kwargle
     dm = prog.module(DM)
     _, ed = prog.func("exact_density", DM)
-    kw = prog.nested(ed, "kwargle")
-    rk = Evaluator(prog).eval_fn(kw, dm)
-    # the packed form is recognised by BOTH tests (a 2-sequence whose second item is a dict); every other outcome of the tests passes the arguments through
-    F_, A0, AR, KWA = P("f"), P("a0"), P("args"), P("kwargs")
-    is_len2 = lambda t: t == mk_cmp("==", ("call", G("len"), (AR,), ()), C(2))
-    is_dict1 = lambda t: is_t(t, "isinst") and t[1] == mk_proj(AR, 1) and t[2] == "dict"
-    flat = lambda conds: [(x, p) for t, p in conds for x in (t[2] if is_t(t, "bool") and t[1] == "and" and p else (t,)) for p in (p,)]
-    got = Arms()
-    for conds, ret in scenarios(rk.ret):
-        fc = flat(conds)
-        packed = any(p and is_len2(t) for t, p in fc) and any(p and is_dict1(t) for t, p in fc)
-        got["packed" if packed else "plain"] = ret
-    okp = got.get("packed") == ("call", F_, (A0, ("star", mk_proj(AR, 0))), (("**", mk_proj(AR, 1)),)) and got.get("plain") == ("call", F_, (A0, ("star", AR)), (("**", KWA),))
-    chk.require(okp, "SIBLING-DENSITY", "exact_density.kwargle", "(args, kwargs) pair is unpacked; otherwise passed through", derived={k: show(v) for k, v in got.items()}.__str__(),
-                expected="f(a0, *args[0], **args[1]) for the packed form, f(a0, *args, **kwargs) otherwise", where=f"{dm.rel}:{kw.lineno}")
-    # the dynamic class routes sample -> kwargle(sample, key, ...) and logpdf -> kwargle(logpdf, v, ...)
-    tcall = [n for n in ast.walk(ed) if isinstance(n, ast.Call) and isinstance(n.func, ast.Name) and n.func.id == "type"]
-    okt = False
-    der = "type(...) call not found"
-    if tcall and len(tcall[0].args) == 3 and isinstance(tcall[0].args[2], ast.Dict):
-        dd = {k.value: v for k, v in zip(tcall[0].args[2].keys, tcall[0].args[2].values) if isinstance(k, ast.Constant)}
-        def routed(lam, fname, first):
-            return isinstance(lam, ast.Lambda) and isinstance(lam.body, ast.Call) and ast.unparse(lam.body.func) == "kwargle" and [ast.unparse(a) for a in lam.body.args] == [fname, first, "args", "kwargs"]
-        okt = routed(dd.get("sample"), "sample", "key") and routed(dd.get("logpdf"), "logpdf", "v") and ast.unparse(tcall[0].args[1]) == "(ExactDensity,)"
-        der = {k: ast.unparse(v)[:80] for k, v in dd.items()}.__str__()
-    chk.require(okt, "SIBLING-DENSITY", "exact_density/type", "sample and logpdf routed through kwargle symmetrically", derived=der, expected="sample: kwargle(sample, key, args, kwargs); logpdf: kwargle(logpdf, v, args, kwargs); base ExactDensity", where=f"{dm.rel}:{ed.lineno}")
+    # decided on the members of the dynamically created class: for `sample` (first operand key) and `logpdf` (first operand v) alike, the (args, kwargs)
+    # PACKAGE - recognised by BOTH tests, a 2-sequence whose second item is a dict - is unpacked, every other argument list is passed through; however the
+    # unpacking is spelled (a shared helper called with the function, a helper returning the pair, inline)
+    evd = Evaluator(prog)
+    rd = evd.eval_fn(ed, dm)
+    tcalls = [x for x in subterms(rd.ret) if is_t(x, "call") and x[1] == G("type") and len(x[2]) == 3]
+    okt, der, okp, got_all = False, "type(name, (ExactDensity,), {...}) not found", False, {}
+    if len(tcalls) == 1 and is_t(tcalls[0][2][2], "dict"):
+        members = {k[1]: v for k, v in tcalls[0][2][2][1] if is_t(k, "const")}
+        base_ok = is_t(tcalls[0][2][1], "tuple") and len(tcalls[0][2][1][1]) == 1 and is_t(tcalls[0][2][1][1][0], "global") and tcalls[0][2][1][1][0][1].endswith("ExactDensity")
+        okt = base_ok and all(evd.closure_of(members.get(k_)) is not None for k_ in ("sample", "logpdf"))
+        der = f"members {sorted(members)}; base {show(tcalls[0][2][1])}"
+        if okt:
+            okp = True
+            for mem, fpar in (("sample", "sample"), ("logpdf", "logpdf")):
+                clo = evd.closure_of(members[mem])
+                node = clo.node
+                pn = [a_.arg for a_ in node.args.args]
+                if len(pn) != 2 or node.args.vararg is None or node.args.kwarg is None:
+                    okp = False
+                    continue
+                rm = evd.eval_fn(node, dm, env0=dict(clo.env))
+                F_, A0, AR, KWA = P(fpar), P(pn[1]), P(node.args.vararg.arg), P(node.args.kwarg.arg)
+                is_len2 = lambda t: t == mk_cmp("==", ("call", G("len"), (AR,), ()), C(2))
+                is_dict1 = lambda t: is_t(t, "isinst") and t[1] == mk_proj(AR, 1) and t[2] == "dict"
+
+                def lits(c, pol):
+                    """literals certainly true on this path: a true conjunction gives its parts, a false disjunction the negated parts"""
+                    if is_t(c, "bool") and ((c[1] == "and" and pol) or (c[1] == "or" and not pol)):
+                        return [l for x in c[2] for l in lits(x, pol)]
+                    if is_t(c, "un") and c[1] == "not":
+                        return lits(c[2], not pol)
+                    if is_t(c, "cmp") and c[1] == "!=":
+                        return lits(mk_cmp("==", c[2], c[3]), not pol)
+                    return [(c, pol)]
+                got = Arms()
+                for conds, ret in scenarios(rm.ret):
+                    fc = [l for c, pol in conds for l in lits(c, pol)]
+                    packed = any(p and is_len2(t) for t, p in fc) and any(p and is_dict1(t) for t, p in fc)
+                    got["packed" if packed else "plain"] = ret
+                got_all[mem] = {k: show(v)[:90] for k, v in got.items()}
+                okp = okp and got.get("packed") == ("call", F_, (A0, ("star", mk_proj(AR, 0))), (("**", mk_proj(AR, 1)),)) and got.get("plain") == ("call", F_, (A0, ("star", AR)), (("**", KWA),))
+    chk.require(okp, "SIBLING-DENSITY", "exact_density.kwargle", "(args, kwargs) pair is unpacked; otherwise passed through", derived=str(got_all)[:400],
+                expected="f(a0, *args[0], **args[1]) for the packed form, f(a0, *args, **kwargs) otherwise - for sample(key, ..) and logpdf(v, ..) alike", where=f"{dm.rel}:{ed.lineno}")
+    chk.require(okt, "SIBLING-DENSITY", "exact_density/type", "sample and logpdf are members of a class derived from ExactDensity", derived=der, expected="type(name, (ExactDensity,), {'sample': .., 'logpdf': .., 'handle_kwargs': ..})", where=f"{dm.rel}:{ed.lineno}")
     # ---- implicit_logit_warning
     _, il = prog.func("implicit_logit_warning", DM)
     wr = prog.nested(il, "wrapper")
